@@ -1,5 +1,6 @@
 import Aergo.Model.DriverLib
 import Aergo.Model.Trie
+import Aergo.Model.TrieBatch
 
 /-! Model driver for C10 (and the trie part of C11): `model-c10 < ops > out`.
 Ops: `new` | `update k=v k=DEL …` (sorted hex keys) | `get k` | `keys` | `commit` | `reopen i`.
@@ -46,6 +47,21 @@ def c10Step (s : St) (line : String) : St × String :=
       | some t => let s' := { s with cur := t }; (s', rootLine s')
       | none => (s, "bad-op")
     | none => (s, "bad-op")
+  | ["par", v] =>
+    -- parseBatch of a stored value
+    match unhex v with
+    | some bytes => (s, batchLine (TrieBatch.parse bytes))
+    | none => (s, "bad-op")
+  | "ser" :: sc :: slots =>
+    -- serializeBatch of a batch given as shortcut flag + 30 slots ("-" = nil)
+    match slots.mapM (fun x => if x == "-" then some none else (unhex x).map some) with
+    | some sl => (s, "ser " ++ hex (TrieBatch.serialize { shortcut := sc == "1", slots := sl }))
+    | none => (s, "bad-op")
   | _ => (s, "bad-op")
+where
+  batchLine (b : Option TrieBatch.Batch) : String :=
+    match b with
+    | none => "panic"
+    | some b => s!"batch sc={b.shortcut} " ++ ",".intercalate (b.slots.map fun x => match x with | some y => hex y | none => "-")
 
 def main : IO UInt32 := run ({} : St) c10Step
